@@ -36,7 +36,10 @@ import (
 	"google.golang.org/grpc/status"
 )
 
-type stubAPI struct{ seen *t_api.Request }
+type stubAPI struct {
+	seen  *t_api.Request
+	reply func(*t_api.Request) (*t_api.Response, error) // nil: canned success
+}
 
 func (a *stubAPI) String() string                               { return "api:stub" }
 func (a *stubAPI) Start() error                                 { return nil }
@@ -52,6 +55,11 @@ func (a *stubAPI) DequeueCQE(cq <-chan *bus.CQE[t_api.Request, t_api.Response]) 
 }
 func (a *stubAPI) EnqueueSQE(sqe *bus.SQE[t_api.Request, t_api.Response]) {
 	a.seen = sqe.Submission
+	if a.reply != nil {
+		res, err := a.reply(sqe.Submission)
+		go sqe.Callback(res, err)
+		return
+	}
 	go sqe.Callback(canned(sqe.Submission), nil)
 }
 
